@@ -30,7 +30,7 @@ def signature(mm):
     return 'C15:' + mm.name + ':' + mm.model.split(' ')[0] + '/' + ' '.join(mm.impl.split(' ')[:2])
 
 
-def build(ty1, ty2, rows, nother, order, by, order_by=None):
+def build(ty1, ty2, rows, nother, order, by, order_by=None, having=None):
     """SELECT with targets arranged by `order` (a permutation placing k1, k2 and the aggregates)."""
     table = impl.HTable('t', [('p', gen_sql.PYTYPES[ty1]), ('q', gen_sql.PYTYPES[ty2]), ('v', int), ('w', Decimal)], rows)
     aggs = [ast.Target(ast.Function('sum', [ast.Column('v')]), 's'),
@@ -45,7 +45,7 @@ def build(ty1, ty2, rows, nother, order, by, order_by=None):
         pv = ast.PivotBy([ast.Column('p'), ast.Column('q')])
     else:
         pv = ast.PivotBy([pos1, pos2])
-    group = ast.GroupBy([ast.Column('p'), ast.Column('q')], None)
+    group = ast.GroupBy([ast.Column('p'), ast.Column('q')], having)
     sel = ast.Select(targets, ast.Table('t'), None, group, order_by, pv, None, None)
     plain = ast.Select(targets, ast.Table('t'), None, group, None, None, None, None)
     return table, sel, plain, pos1 - 1, pos2 - 1
@@ -150,7 +150,17 @@ def random_layer(ctx, ncases):
             keycols = rng.shuffle([ast.Column('q'), ast.Column('p'), 1 + rng.below(2 + nother)])[:rng.range(1, 2)]
             order_by = [ast.OrderBy(k, ast.Ordering(rng.below(2))) for k in keycols]
             ctx.count('with-order-by')
-        table, sel, plain, c1, c2 = build(ty1, ty2, rows, nother, order, rng.choice(['name', 'pos']), order_by)
+        having = None
+        if rng.chance(1, 4):
+            # clauses that make the compiler append invisible targets: HAVING, ORDER BY an aggregate that is not selected
+            having = rng.choice([ast.Greater(ast.Function('count', [ast.Asterisk()]), ast.Constant(0)),
+                                 ast.Greater(ast.Function('sum', [ast.Column('v')]), ast.Constant(2)),
+                                 ast.GreaterEq(ast.Function('min', [ast.Column('v')]), ast.Constant(-1))])
+            ctx.count('with-having')
+        if rng.chance(1, 5):
+            order_by = (order_by or []) + [ast.OrderBy(ast.Function('count', [ast.Column('w')]), ast.Ordering(rng.below(2)))]
+            ctx.count('with-order-by-aggregate')
+        table, sel, plain, c1, c2 = build(ty1, ty2, rows, nother, order, rng.choice(['name', 'pos']), order_by, having)
         SqlCase([table], sel, name='random').check(ctx, nontrivial=len(rows) >= 2)
         unpivot_oracle(ctx, table, sel, plain, c1, c2)
         if ctx.stop():
